@@ -163,6 +163,10 @@ def leaf_family():
                 ivsets.append(t)
                 if k == 2:
                     ivsets.append(t[::-1])      # the other insertion order of the same frozenset
+    # three subscripts (a fourth name D occurs as a subscript only): printers that join subscripts must handle the third one
+    for sub in itt.combinations(names + ["D"], 3):
+        for stars in ((False, True, False), (True, False, True)):
+            ivsets.append(tuple(dsl.Intervention(name=n, star=s) for n, s in zip(sub, stars)))
     for nc in (1, 2):
         for ch in itt.combinations(names, nc):
             rest = [n for n in names if n not in ch]
@@ -200,6 +204,7 @@ class Pool:
         self.rng = random.Random(seed)
         V = [dsl.Variable(n) for n in NAMES]
         self.V = V
+        self.max_factors = 3 if len(NAMES) <= 3 else 5
         atoms = []
         for k in (1, 2, 3):
             for ch in itt.combinations(V, k):
@@ -264,7 +269,7 @@ class Pool:
         if cls == "Zero":
             return dsl.Zero()
         if cls == "Product":
-            xs = [self.gen(d) for _ in range(rng.randint(2, 3))]
+            xs = [self.gen(d) for _ in range(rng.randint(2, self.max_factors))]
             return dsl.Product(tuple(xs))
         if cls == "Sum":
             e = self.gen(d)
